@@ -35,7 +35,7 @@ struct History
 {
     std::vector<SentMsg> msgs;
     std::vector<Stream> streams;
-    uint64_t wraps = 0, trailingCases = 0, zeroSegments = 0;
+    uint64_t wraps = 0, trailingCases = 0, zeroSegments = 0, trainCases = 0;
 };
 
 // payload content unique per message: message id and offset mixed into every byte
@@ -54,6 +54,19 @@ inline Bytes uniqueContent(uint32_t msgId, size_t n, bool ethernet)
         wire::set16(b.data() + 4, static_cast<uint16_t>(n - wire::kEthHeader));
     }
     return b;
+}
+
+// trailing bytes that are themselves a train of well-formed unsegmented messages (stride 16 + payload bytes each): a decoder
+// that resumes parsing anywhere behind a segment, at an offset that is a multiple of the stride, finds a valid message there
+inline Bytes trailingTrain(Rng& r, size_t stride, size_t count)
+{
+    Bytes t;
+    for (size_t i = 0; i < count; ++i)
+    {
+        Bytes pl(stride - 16, static_cast<uint8_t>(0xD0 + i % 16));
+        wire::appendMessage(t, 0x7777000000000000ULL + i, 0x0BAD0BADu, static_cast<uint8_t>(r.chance(1, 4) ? wire::SEG_FIRST : 0), 0x5F, pl);
+    }
+    return t;
 }
 
 inline Bytes trailingBytes(Rng& r)
@@ -115,6 +128,9 @@ inline void genStream(Rng& r, History& h, int ep, uint16_t dev, uint8_t stream, 
             continue;
         }
         size_t nseg = r.chance(1, 6) ? r.range(2, 12) : r.range(2, 5);
+        // in one message out of five the segment sizes are multiples of a stride and the frames carry a train of valid
+        // look-alike messages of that stride behind the segment
+        const size_t stride = r.chance(1, 5) ? r.pick<size_t>({16, 17, 20, 32}) : 0;
         SentMsg s;
         s.ver = ver;
         s.mt = mt;
@@ -125,8 +141,10 @@ inline void genStream(Rng& r, History& h, int ep, uint16_t dev, uint8_t stream, 
         for (size_t i = 0; i < nseg; ++i)
         {
             size_t n = r.chance(1, 8) ? 0 : (r.chance(1, 10) ? r.range(0, maxSeg) : r.range(0, std::min<size_t>(maxSeg, 48)));
+            if (stride)
+                n = stride * r.below(4);
             if (eth && i == 0 && n < wire::kEthHeader)
-                n = wire::kEthHeader + r.below(8);  // keep the Ethernet header inside the first segment for readability only
+                n = stride ? stride : wire::kEthHeader + r.below(8);  // keep the Ethernet header inside the first segment for readability only
             if (total + n > 65535)
                 n = 65535 - total;  // reassembled totals above 65535 are outside the stated domain; 65535 itself is legal
             if (n == 0)
@@ -158,6 +176,11 @@ inline void genStream(Rng& r, History& h, int ep, uint16_t dev, uint8_t stream, 
             SFrame f;
             f.endpoint = ep;
             Bytes tr = trailingBytes(r);
+            if (stride && r.chance(2, 3))
+            {
+                tr = trailingTrain(r, stride, r.range(1, 14));
+                ++h.trainCases;
+            }
             if (!tr.empty())
                 ++h.trailingCases;
             f.raw = buildFrame(ver, dev, mt, stream, seq, {m}, tr);
@@ -681,6 +704,7 @@ inline void randomCase(Ctx& c, long idx)
         c.sig(il);
     c.count("wrap_crossings", h.wraps);
     c.count("trailing_byte_cases", h.trailingCases);
+    c.count("trailing_trains_of_look_alike_messages", h.trainCases);
     c.count("zero_length_segments", h.zeroSegments);
     c.count("histories");
     if (c.samples.size() < 3)
